@@ -34,7 +34,7 @@ Definition create_savepoint (d : db) (n : spname) : db * result :=
   | None => (d, RErr)
   | Some x =>
       (mkDb (d_cat d) (d_tabs d) (d_uix d)
-            (Some (mkTxn (x_cat x) (x_tabs x) (x_sps x ++ [(n, length (x_log x))]) (x_log x))), ROk 0)
+            (Some (mkTxn (x_cat x) (x_tabs x) (x_ixs x) (x_sps x ++ [(n, length (x_log x))]) (x_log x))), ROk 0)
   end.
 
 (** [TransactionManager::release_savepoint] : removes that one entry only *)
@@ -46,7 +46,7 @@ Definition release_savepoint (d : db) (n : spname) : db * result :=
       | None => (d, RErr)
       | Some j =>
           (mkDb (d_cat d) (d_tabs d) (d_uix d)
-                (Some (mkTxn (x_cat x) (x_tabs x) (remove_nth j (x_sps x)) (x_log x))), ROk 0)
+                (Some (mkTxn (x_cat x) (x_tabs x) (x_ixs x) (remove_nth j (x_sps x)) (x_log x))), ROk 0)
       end
   end.
 
@@ -118,7 +118,7 @@ Definition rollback_to_savepoint (d : db) (n : spname) : db * result :=
           if (length (x_log x) <? idx)%nat then (d, RPanic)           (* Vec::drain range start > len *)
           else
             let undo := rev (skipn idx (x_log x)) in
-            let x' := mkTxn (x_cat x) (x_tabs x) (firstn (S j) (x_sps x)) (firstn idx (x_log x)) in
+            let x' := mkTxn (x_cat x) (x_tabs x) (x_ixs x) (firstn (S j) (x_sps x)) (firstn idx (x_log x)) in
             match undo_all (d_tabs d) undo with
             | (T', Done _) => (mkDb (d_cat d) T' (d_uix d) (Some x'), ROk 0)
             | (T', Fail) => (mkDb (d_cat d) T' (d_uix d) (Some x'), RErr)
